@@ -740,6 +740,9 @@ func (c *c15) opSendJoin() {
 		case "not_a_state_event":
 			sh.stateKey = nil
 		case "sender_of_other_server":
+			if sh.key != sh.signer.Current() {
+				continue // an expired key of the original signer was already chosen
+			}
 			// somebody else's user, signed by that user's server, submitted by J
 			o := rm.users[0]
 			if len(rm.servers) > 2 {
@@ -762,9 +765,9 @@ func (c *c15) opSendJoin() {
 			if sigFaulted {
 				continue
 			}
-			// J rotated its key; the join is signed with the old key but dated after the rotation
-			old := rm.J().Current()
-			rm.J().Rotate(t, timeNow())
+			// the signer rotated its key; the join is signed with the old key but dated after the rotation
+			old := sh.signer.Current()
+			sh.signer.Rotate(t, timeNow())
 			time.Sleep(time.Duration(t.Range(1, 3600)) * time.Second)
 			sh.key, sh.ts, sigFaulted = old, timeNow(), true
 			r.Fault("key_rotate")
@@ -861,7 +864,7 @@ func (c *c15) callSendJoin(in gmsl.HandleSendJoinInput, ev gmsl.PDU, submitted [
 	if accepted {
 		r.Probe("send_join_accepted")
 		if ev.Type() != spec.MRoomMember {
-			r.Violate("C15", "sendjoin_accepts_non_member_event", "type:"+c.sig(), "HandleSendJoin accepted and counter-signed an event of type %s (content.membership=%q)", ev.Type(), mem)
+			r.Violate("C15", "sendjoin_accepts_non_member_event", "not_a_member_event", "HandleSendJoin accepted and counter-signed an event of type %s (content.membership=%q)", ev.Type(), mem)
 		}
 		r.Check(gJoin, "C15", "sendjoin_accepts_non_join", c.sig(), "HandleSendJoin accepted an event that is not a join (type %s membership %q)", ev.Type(), mem)
 		r.Check(gSelf, "C15", "sendjoin_sender_not_state_key", c.sig(), "HandleSendJoin accepted a join whose sender %s differs from its state key", ev.SenderID())
@@ -1119,9 +1122,9 @@ func (c *c15) callInvite(raw []byte, built gmsl.PDU, roomID spec.RoomID, version
 	if accepted {
 		r.Probe("invite_accepted")
 		if built.Type() != spec.MRoomMember || mem != "invite" {
-			what := "membership:" + mem
+			what := "membership_not_invite"
 			if built.Type() != spec.MRoomMember {
-				what = "type:" + built.Type()
+				what = "not_a_member_event"
 			}
 			r.Violate("C15", "invite_accepts_non_invite", what, "HandleInvite accepted and counter-signed an event that is not an invite (type %s, membership %q)", built.Type(), mem)
 		}
@@ -1194,6 +1197,14 @@ type joinClient struct {
 func (jc *joinClient) MakeJoin(ctx context.Context, origin, s spec.ServerName, roomID, userID string) (gmsl.MakeJoinResponse, error) {
 	c, rm := jc.c, jc.c.rm
 	c.r.Logf("  fed make_join(%s, %s) at %s", roomID, userID, s)
+	if d := time.Duration(c.t.Intn(4)) * 700 * time.Millisecond; d > 0 {
+		time.Sleep(d) // simulated network latency
+		c.r.Fault("delay")
+	}
+	if err := ctx.Err(); err != nil {
+		jc.mjErr = err
+		return nil, err
+	}
 	uid, err := spec.NewUserID(userID, true)
 	if err != nil {
 		return nil, err
@@ -1335,6 +1346,12 @@ func (c *c15) opPerformJoin() {
 	uid, _ := spec.NewUserID(c.ju.id, true)
 	rid, _ := spec.NewRoomID(rm.roomID)
 	k := rm.J().Current()
+	ctx, cancel := context.WithCancel(context.Background())
+	defer cancel()
+	if t.Chance(60) {
+		cancel()
+		c.fault("ctx_cancel")
+	}
 	in := gmsl.PerformJoinInput{UserID: uid, RoomID: rid, ServerName: rm.R().Name, Content: map[string]interface{}{}, PrivateKey: k.Priv, KeyID: k.ID,
 		KeyRing: &gmsl.KeyRing{KeyDatabase: c.db}, EventProvider: c.c14.prov.fn, UserIDQuerier: uidFor,
 		GetOrCreateSenderID: func(ctx context.Context, userID spec.UserID, roomID spec.RoomID, roomVersion string) (spec.SenderID, ed25519.PrivateKey, error) {
@@ -1346,7 +1363,7 @@ func (c *c15) opPerformJoin() {
 	}
 	var res *gmsl.PerformJoinResponse
 	var ferr *gmsl.FederationError
-	if guard(r, "PerformJoin", func() { res, ferr = gmsl.PerformJoin(context.Background(), jc, in) }) {
+	if guard(r, "PerformJoin", func() { res, ferr = gmsl.PerformJoin(ctx, jc, in) }) {
 		return
 	}
 	ok := ferr == nil && res != nil
@@ -1381,7 +1398,7 @@ func (c *c15) opPerformJoin() {
 		"PerformJoin returned %s in room %s, not a join of %s in %s", describe(je), je.RoomID().String(), c.ju.id, rm.roomID)
 	// (b) the remote's state contains a create event of a known room version
 	createOK := false
-	for _, e := range a.auth {
+	for _, e := range a.all() {
 		if e.ev != nil && e.ev.Type() == spec.MRoomCreate && e.ev.StateKey() != nil && *e.ev.StateKey() == "" {
 			var cc struct {
 				V *string `json:"room_version"`
@@ -1396,7 +1413,7 @@ func (c *c15) opPerformJoin() {
 			}
 		}
 	}
-	r.Check(createOK, "C15", "performjoin_without_create_event", c.sig(), "PerformJoin returned a join although the remote's auth chain has no create event of a known room version")
+	r.Check(createOK, "C15", "performjoin_without_create_event", c.sig(), "PerformJoin returned a join although the remote's state has no create event of a known room version")
 	// (c) the state passes the federation-response checks (C14's model)
 	model := c.c14.modelState(a, false)
 	if !model.contract {
